@@ -33,11 +33,14 @@ def rec(*a) -> None:
     REC.append((sim.seq,) + a)
 
 
-def _wid() -> int:
+def _wid():
+    """(worker id, runtime address of the running task)."""
     try:
-        return get_runtime()._id
+        w = get_runtime()
+        t = w._active_task
+        return (w._id, tuple(t.return_address) if t is not None else None)
     except Exception:
-        return -99
+        return (-99, None)
 
 
 def make_payload(kind: str, nid: int):
